@@ -106,6 +106,14 @@ func evRender(lets []evLet, kinds map[string]string) string {
 			e = a(0) + " -> <sequence of int>(e:\n" + ind + "  entry = e\n" + ind + "  k = e.key\n" + ind + "  w = e.value + " + a(1) + "\n" + ind + ")"
 		case "call":
 			e = "H(" + a(0) + ", " + a(1) + ")"
+		case "rodd":
+			e = "Odd(" + a(0) + ").out"
+		case "rsum":
+			e = "Sum(" + a(0) + ").out"
+		case "rall":
+			e = "All(" + a(0) + ").out"
+		case "rlist":
+			e = "Upto(" + a(0) + ").out"
 		case "tset":
 			e = a(0) + " -> <set of int>(x:\n" + ind + "  id = x\n" + ind + "  twice = x * 2\n" + ind + "  tag = " + a(1) + "\n" + ind + ")"
 		case "tform", "tconst":
@@ -129,6 +137,11 @@ func evRender(lets []evLet, kinds map[string]string) string {
 	b.WriteString("    )\n")
 	// the helper view called by the operator "call": its own let is named like the caller's first variable
 	b.WriteString("  !view H(a <: int, b <: int) -> int:\n    a -> (:\n      let v1 = a * 2\n      total = v1 + b\n    )\n")
+	// recursive helper views: the recursive call is an operand of !=, +, && and |
+	b.WriteString("  !view Odd(n <: int) -> bool:\n    n -> (:\n      out = if n == 0 then false else Odd(n - 1).out != true\n    )\n")
+	b.WriteString("  !view Sum(n <: int) -> int:\n    n -> (:\n      out = if n == 0 then 0 else Sum(n - 1).out + n\n    )\n")
+	b.WriteString("  !view All(n <: int) -> bool:\n    n -> (:\n      out = if n == 0 then true else All(n - 1).out && n > 0\n    )\n")
+	b.WriteString("  !view Upto(n <: int) -> int:\n    n -> (:\n      out = if n == 0 then [0] else Upto(n - 1).out | [n]\n    )\n")
 	return b.String()
 }
 
